@@ -215,4 +215,143 @@ theorem compound_ok (l : List Item) (hw : ∀ it ∈ l, WFItem it) (hty : ∀ x 
     show pCompoundStatement (run G) s = _
     simp [pCompoundStatement, StmtSkel.bnd, h1, h2, h3, h4, StmtSkel.pur, tokCoord, tc, bodyVal]
 
+/-! ## external declarations -/
+
+/-- `specifiers declarator compound-body` -/
+structure FDef where
+  specs : List Tk
+  d : D
+  body : List Item
+
+namespace FDef
+def flat (f : FDef) : List Tk := f.specs ++ (f.d.flat ++ bodyFlat f.body)
+def ntoks (f : FDef) : Nat := f.specs.length + f.d.ntoks + itemsNtoks f.body + 2
+def fuel (f : FDef) : Nat := max (f.specs.length + 1) (max (f.d.fuel + starsNtoks (dStars f.d) + 5) (itemsFuel f.body + 2)) + 2
+/-- the declarator as `_DeclInfo` (no initializer) -/
+def di (n : Nat) (f : FDef) : DI :=
+  { ms := f.d.chain (n + f.specs.length), x := dName f.d, tco := dTco (n + f.specs.length) f.d, init := .none }
+/-- **the AST of the function definition**: `FuncDef(decl, None, body)` -/
+def vals (n : Nat) (f : FDef) : List Val :=
+  match typeNames n f.specs with
+  | [] => []
+  | p0 :: names =>
+    [PycModel.mk .FuncDef (f.di n).coord
+      [declOut (foldSpec n {} f.specs) p0.2 (specNames p0 names) (f.di n), .none,
+       bodyVal (n + f.specs.length + f.d.ntoks) f.body]]
+end FDef
+
+structure WFFDef (f : FDef) : Prop where
+  specToks : SpecToks false f.specs
+  specVals : SpecVals f.specs
+  sawType : sawAfter false f.specs = true
+  wfd : WFD f.d
+  noParen : NoParen f.d
+  body : ∀ it ∈ f.body, WFItem it
+
+theorem specs_head {l : List Tk} (hl : SpecToks false l) (hsaw : sawAfter false l = true) :
+    ∃ t r, l = t :: r ∧ t.1 ∈ declStart ∧ t.1 ≠ "PPHASH" ∧ t.1 ≠ "PPPRAGMA" ∧ t.1 ≠ "_PRAGMA" ∧ t.1 ≠ "SEMI" ∧
+      t.1 ≠ "_STATIC_ASSERT" := by
+  cases l with
+  | nil => exact absurd rfl (sawAfter_ne_nil hsaw)
+  | cons t r =>
+    obtain ⟨hk, _⟩ := hl
+    refine ⟨t, r, rfl, ?_⟩
+    rcases hk with h | h | h | h | h
+    · revert h; generalize t.1 = k; revert k; decide
+    · revert h; generalize t.1 = k; revert k; decide
+    · revert h; generalize t.1 = k; revert k; decide
+    · revert h; generalize t.1 = k; revert k; decide
+    · rw [h.1]; decide
+
+/-- **`_parse_external_declaration`** on a function definition -/
+theorem funcDef_ok (f : FDef) (hwf : WFFDef f) (hty : env.ty (dName f.d) = false ∧ ∀ x ∈ itemsNames f.body, env.ty x = false)
+    (s : PState) (rest : List Tk) (hs : SeesT env s (f.flat ++ rest)) (F : Nat) (hF : f.fuel ≤ F) :
+    ∃ s', run F .externalDeclaration s = .ok (f.vals s.idx) s' ∧ SeesT env s' rest ∧ s'.idx = s.idx + f.ntoks := by
+  obtain ⟨G, rfl⟩ : ∃ G, F = G + 1 := ⟨F - 1, by simp only [FDef.fuel] at hF; omega⟩
+  simp only [FDef.fuel] at hF
+  obtain ⟨t, r, hsp, hk0, hk1, hk2, hk3, hk4, hk5⟩ := specs_head hwf.specToks hwf.sawType
+  obtain ⟨k1, v1, r1, hd1, hkd⟩ := declarator_head hwf.wfd hwf.noParen
+  have hs0 : SeesT env s (f.specs ++ (f.d.flat ++ (bodyFlat f.body ++ rest))) := by
+    simpa [FDef.flat, List.append_assoc] using hs
+  -- peek, no `;`
+  have hs0' : SeesT env s ((t.1, t.2) :: (r ++ (f.d.flat ++ (bodyFlat f.body ++ rest)))) := by rw [hsp] at hs0; simpa using hs0
+  obtain ⟨sa, hpa, hsa, _, hia, _⟩ := peek_spec s t.1 t.2 _ hs0'
+  obtain ⟨sb, hpb, hsb, hib⟩ := accept_other sa _ "SEMI" hsa (by
+    intro k' v' r' h; simp only [List.cons.injEq, Prod.mk.injEq] at h; rw [← h.1.1]; exact hk4)
+  have hsb' : SeesT env sb (f.specs ++ (f.d.flat ++ (bodyFlat f.body ++ rest))) := by rw [hsp]; simpa using hsb
+  -- the specifiers
+  have hfo : FollowSpec (f.d.flat ++ (bodyFlat f.body ++ rest)) := by
+    intro k v r' h
+    simp only [hd1, List.cons_append, List.cons.injEq, Prod.mk.injEq] at h
+    rw [← h.1.1]
+    rcases hkd with rfl | rfl <;> decide
+  obtain ⟨s1, h1, hs1, hi1⟩ := specs_loop f.specs {} false false none sb _ G hwf.specToks hfo hsb' (by omega) (fun _ => rfl)
+  have hne := sawAfter_ne_nil hwf.sawType
+  have hsome : (if (false || !f.specs.isEmpty) = true then some (foldSpec sb.idx {} f.specs) else none) =
+      some (foldSpec sb.idx {} f.specs) := by
+    cases hsp' : f.specs with
+    | nil => exact absurd hsp' hne
+    | cons t r => rfl
+  rw [hsome, hwf.sawType] at h1
+  have h1' : run G (.declSpecsLoop none false none) sb = .ok (some (foldSpec sb.idx {} f.specs), true, firstCoord none sb.idx f.specs) s1 := h1
+  -- scan, reset, declarator
+  obtain ⟨s3, hscan, s4, h4, hs4, hi4⟩ := scan_ok f.d hwf.wfd hwf.noParen s1 _ hs1 G (by omega)
+  obtain ⟨s5, h5, hs5, hi5⟩ := parse_declarator f.d hwf.wfd s4 _ hs4
+    (by intro k v r' h; simp only [bodyFlat, List.cons_append, List.cons.injEq, Prod.mk.injEq] at h; rw [← h.1.1]; exact ⟨by decide, by decide⟩)
+    G (by omega)
+  -- `{` follows
+  have hs5' : SeesT env s5 (("LBRACE", "{") :: (itemsFlat f.body ++ [("RBRACE", "}")] ++ rest)) := by
+    simpa [bodyFlat, List.append_assoc] using hs5
+  obtain ⟨s6, h6, hs6, hi6, _⟩ := peekType_spec s5 _ hs5'
+  obtain ⟨s7, h7, hs7, hi7, _⟩ := peekType_spec s6 _ hs6
+  obtain ⟨s8, h8, hs8, hi8, _⟩ := peekType_spec s7 _ hs7
+  have hs8' : SeesT env s8 (bodyFlat f.body ++ rest) := by simpa [bodyFlat, List.append_assoc] using hs8
+  obtain ⟨s9, h9, hs9, hi9⟩ := compound_ok f.body hwf.body hty.2 s8 rest hs8' G (by omega)
+  -- `_build_function_definition`
+  obtain ⟨p0, names, htn, hok⟩ := specOK_fold f.specs sb.idx hwf.specToks hwf.specVals hwf.sawType
+  have eb : sb.idx = s.idx := by omega
+  have e4 : s4.idx = s.idx + f.specs.length := by omega
+  have hdi : ({ ms := f.d.chain s4.idx, x := dName f.d, tco := dTco s4.idx f.d, init := .none } : DI) = f.di s.idx := by
+    simp [FDef.di, e4]
+  obtain ⟨s10, h10, hs10, hi10⟩ := buildDeclarations_ok (foldSpec sb.idx {} f.specs) p0 names hok (f.di s.idx) []
+    (by intro d hd; simp only [List.mem_singleton] at hd; subst hd; exact hty.1) s9 rest hs9
+  refine ⟨s10, ?_, hs10, by simp only [FDef.ntoks]; omega⟩
+  have hraw : chainVal (f.d.chain s4.idx) (f.d.td s4.idx) = (f.di s.idx).raw := by
+    rw [← hdi]; simp [DI.raw, td_eq]
+  have hco : ∀ st, valCoord (chainVal (f.d.chain s4.idx) (f.d.td s4.idx)) "decl.coord" st = .ok (f.di s.idx).coord st := by
+    intro st; rw [hraw]; exact valCoord_node (f.di s.idx).raw_isNode _ st
+  have htyne : (foldSpec sb.idx {} f.specs).type.isEmpty = false := by
+    rw [hok.type_eq]; rfl
+  have hinfo : ({ decl := chainVal (f.d.chain s4.idx) (f.d.td s4.idx) } : DeclInfo) = (f.di s.idx).info := by
+    rw [hraw]; rfl
+  have e8 : s8.idx = s.idx + f.specs.length + f.d.ntoks := by omega
+  rw [e8] at h9
+  rw [eb] at h10 htn
+  simp only [List.map_cons, List.map_nil] at h10
+  have hc : declStart.contains t.1 = true := by simpa using hk0
+  have hlb : (some "LBRACE" : Option String) == some "LBRACE" := rfl
+  show pExternalDeclaration (run G) s = _
+  have hreset : reset (sb.idx + f.specs.length) s3 = .ok () s4 := by rw [← hi1]; exact h4
+  have h5' : run G (.declaratorKind .id true) s4 = .ok (f.di s.idx).raw s5 := by rw [h5, hraw]
+  have horm : orM (peekIs "LBRACE") startsDeclaration s5 = .ok true s6 := by
+    simp [orM, peekIs, StmtSkel.bnd, h6, StmtSkel.pur]
+  have hsd : startsDeclaration s6 = .ok false s7 := by
+    simp only [startsDeclaration, StmtSkel.bnd, h7, StmtSkel.pur, List.head?_cons, Option.map_some]
+    rfl
+  have hne8 : ((some "LBRACE" : Option String) != some "LBRACE") = false := rfl
+  have b1 : (t.1 == "PPHASH") = false := by simpa using hk1
+  have b2 : (t.1 == "PPPRAGMA" || t.1 == "_PRAGMA") = false := by simp [hk2, hk3]
+  have b5 : (t.1 == "_STATIC_ASSERT") = false := by simpa using hk5
+  have hnid : ((some "ID" : Option String) != some "ID") = false := rfl
+  simp only [pExternalDeclaration, StmtSkel.bnd, hpa, b1, b2, hpb, b5, hc, Bool.false_eq_true, ↓reduceIte, Option.isSome_none,
+    Bool.not_true, pDeclSpecs, h1', requireSpec, Bool.false_and, StmtSkel.pur, mark, hscan, hi1, hreset, hnid, h5', horm, hsd, h8,
+    List.head?_cons, Option.map_some, hne8, htyne, h9, buildFunctionDefinition]
+  have hco' : ∀ st, valCoord (f.di s.idx).raw "decl.coord" st = .ok (f.di s.idx).coord st :=
+    fun st => valCoord_node (f.di s.idx).raw_isNode _ st
+  have hinfo' : ({ decl := (f.di s.idx).raw } : DeclInfo) = (f.di s.idx).info := rfl
+  rw [eb] at hok
+  have hntd := hok.no_typedef
+  rw [eb]
+  simp only [hco', hntd, Bool.false_eq_true, ↓reduceIte, StmtSkel.bnd, hinfo', h10, StmtSkel.pur, FDef.vals, htn]
+
 end PycModel.TransUnit
